@@ -183,7 +183,9 @@ def inv_violations(root):
 # C05 oracle: ordered-tree behaviour read off the implementation's own dumps
 
 def died(script, rec):
-    """the process must survive every in-contract call"""
+    """the process must survive every in-contract call (and nothing may be leaked once the configuration is destroyed)"""
+    if any(l == "L LEAK" for l in rec.get("impl", [])):
+        return ["memory allocated by the library is still allocated, and unreachable, after config_destroy (LeakSanitizer)"]
     if rec["status"] == "ok":
         return []
     al = align(script, rec["impl"])
@@ -433,12 +435,20 @@ def correspond(ctx, res, cases, drop_prefixes=(), line_filter=None, oracle=None,
             r["problem"] = problem
             r["oracle"] = orc
             failing.append(r)
+
     res.distribution[label + "_process_status"] = seen_status
     # group failing records per process chunk: a crash poisons the whole chunk, so re-run singly
     final = []
     failing.sort(key=lambda r: 0 if r.get("oracle") else 1)
     nbroken0 = len(res.corr_broken)
-    for r in failing[:60]:
+    # at most 60 re-runs: every record an oracle complained about first, the others sampled evenly over the whole list
+    # (a process-wide effect marks every case of a chunk; the cases that matter may be anywhere)
+    with_o = [r for r in failing if r.get("oracle")]
+    without = [r for r in failing if not r.get("oracle")]
+    room = max(0, 60 - len(with_o))
+    if len(without) > room and room > 0:
+        without = [without[i * len(without) // room] for i in range(room)]
+    for r in (with_o + without)[:60]:
         if not r.get("oracle") and len(res.corr_broken) - nbroken0 >= 3:
             continue
         rr = run_single(runner, r["script"], drop_prefixes=drop_prefixes, line_filter=line_filter)
@@ -723,6 +733,17 @@ def c07_cases():
                              "eget %s 1 0" % k, "eget %s 2 0" % k, "plook %s %s" % (k, hx(b"l.[0]")),
                              "mlook %s . %s" % (k, hx(b"nosuch")), "eget %s 1 5" % k]
                 cases.append("\n".join(body) + "\n")
+                # the integer formats are presentation only: the same grid on hexadecimal settings (own format, and the
+                # configuration's default format)
+                if st in "il":
+                    for fmtpre in (["setfmt 0 1", "setfmt 1/0 1", "setfmt 2/0 1"], ["deffmt 1"]):
+                        for k in "il":
+                            for v in C07_STORE[k]:
+                                body = list(pre) + fmtpre + ["dump", "set %s 0 %s" % (k, c07_val(k, v)), "dump", "get %s 0" % st,
+                                                             "get %s 0" % k, "eset %s 1 0 %s" % (k, c07_val(k, v)),
+                                                             "eset %s 2 0 %s" % (k, c07_val(k, v)), "dump",
+                                                             "eget %s 1 0" % st, "eget %s 2 0" % k]
+                                cases.append("\n".join(body) + "\n")
                 for k in "ilfbs":
                     for v in C07_STORE[k]:
                         if k == "f" and st in "il" and auto and not c07_castable(v, st):
@@ -958,6 +979,12 @@ def c06_oracle(script, rec):
                 if r != "n-":
                     bad.append("'%s' (%r) has an empty component but resolved to %s" % (op, pb, r))
                 continue
+            mneg = re.search(rb"\[-([0-9]+)\]", pb)
+            if mneg and int(mneg.group(1)) > 0:
+                # a negative index is below every element
+                if r != "n-":
+                    bad.append("'%s' (%r) has a negative index but resolved to %s" % (op, pb, r))
+                continue
             comps, ch = tnode_resolve(root, bp, pb)
             if comps is None:
                 continue
@@ -1034,6 +1061,11 @@ def c16_oracle(script, rec):
             if s and "strings=BAD" in s:
                 bad.append("a string handed out earlier changed while its setting still holds it")
             cur = hooks_in(root)
+            if root is not None and root.hook != "-" and pending and \
+                    any(o.split(" ")[0] in ("clear", "reads", "readst", "readf") for o, _ in pending) and \
+                    not any(o.startswith("hook . ") for o, _ in pending):
+                bad.append("after %s the root setting still carries hook %s: clearing or re-reading destroys the old root "
+                           "(its hook is released) and the new root has none" % ([o for o, _ in pending], root.hook))
             if prev is not None and root is not None:
                 calls = [h for _, d in pending for h in d]
                 attached = [o.split(" ")[2] for o, _ in pending if o.startswith("hook ") and o.split(" ")[2] != "-"]
@@ -1100,6 +1132,13 @@ def c16_cases(rng, n):
                 while k2 < len(out) and out[k2] != "dump":
                     k2 += 1
                 out[k2 + 1:k2 + 1] = ["dtor 1", "dump"]
+        if i % 5 == 2:
+            # a hook on the root of a configuration without settings (fresh, cleared, or read from an empty text)
+            pre = rng.choice([["init", "options 150", "dtor 1"], ["init", "options 150", "dtor 1", "reads %s" % hx(b"# nothing\n"), "dump"],
+                              ["init", "options 150", "dtor 1", "add . %s 2" % hx(b"t"), "dump", "clear", "dump"]])
+            mid = ["hook . 7001", "dump", rng.choice(["clear", "reads %s" % hx(b"a = 1;"), "reads %s" % hx(b""), "readst %s" % hx(b"b = 2;")]),
+                   "dump", "hook . 7002", "dump", rng.choice(["clear", "reads %s" % hx(b" ")]), "dump"]
+            out = pre + mid
         tail = rng.choice(["destroy", "clear\ndump\ndestroy", "reads %s\ndump\ndestroy" % hx(b"a = 1; b = \"x\";"),
                            "reads %s\ndump\ndestroy" % hx(b"a = ;")])
         cases.append("\n".join(out) + "\n" + tail + "\n")
@@ -1730,6 +1769,48 @@ def run_c15(ctx):
     res.distribution["grid"] = "3 x 3 locales x 20 calls"
     correspond(ctx, res, cases, drop_prefixes=("L open", "L close"), oracle=oracle,
                known=lambda s, r, o: match_known("C15", s, r, o), per_proc=1)
+    # ---- the thread's locale OBJECT is replaced between calls (freelocale / newlocale, as a server does per request):
+    #      a freed '.'-radix object and a fresh ','-radix one may have the same address.  Build without ASan (its
+    #      quarantine prevents the reuse); results must equal those of the same calls with no locale at all ----
+    if rc is None and not res.violations:
+        t = C15_TEXTS[0]
+        calls = ["reads %s" % hx(t), "dump", "write", "readst %s" % hx(t), "dump", "writef %s" % hx(b"sw.cfg"), "fs cat %s" % hx(b"sw.cfg")]
+        sw = []
+        for order in ([b"yy_YY.utf8", b"xx_XX.utf8"], [b"xx_XX.utf8", b"yy_YY.utf8", b"xx_XX.utf8"],
+                      [b"yy_YY.utf8", b"yy_YY.utf8", b"xx_XX.utf8", b"C.utf8", b"xx_XX.utf8"]):
+            body = ["init"]
+            for j, nm in enumerate(order):
+                body += ["locale %s %s" % ("thread" if j == 0 else "swap", hx(nm)), "locq"] + calls + ["locq"]
+            sw.append("\n".join(body) + "\n")
+        prunner = ctx.runner("plain")
+        refrec = run_single(prunner, "\n".join(["init"] + calls) + "\n")
+        refops = [(op, [l for l in out if not l.startswith("S ")]) for op, out in align(refrec["script"], refrec["impl"]) if op != "init"]
+        for body in sw:
+            rs = run_single(prunner, body)
+            res.evaluations += 1
+            bad = died(body, rs)
+            al = [(op, [l for l in out if not l.startswith("S ")]) for op, out in align(body, rs["impl"])]
+            locs = [out[0] for op, out in al if op == "locq" and out]
+            blocks, cur = [], None
+            for op, out in al:
+                if op.startswith("locale "):
+                    cur = []
+                    blocks.append(cur)
+                elif op != "locq" and op != "init" and cur is not None:
+                    cur.append((op, out))
+            for k, blk in enumerate(blocks):
+                if blk != refops and not bad:
+                    d = next((i for i, (a, b) in enumerate(zip(blk, refops)) if a != b), 0)
+                    bad.append("after replacing the thread's locale object (%d. locale of the history) '%s' gives %s; with no "
+                               "locale at all it gives %s" % (k + 1, blk[d][0][:30] if blk else "?", str(blk[d][1])[:100] if blk else "?",
+                                                              str(refops[d][1])[:100]))
+            for i in range(0, len(locs) - 1, 2):
+                if locs[i] != locs[i + 1]:
+                    bad.append("the caller's locale changed across the calls: %s -> %s" % (locs[i], locs[i + 1]))
+            if bad:
+                res.violations.append(dict(name="switch_%d" % len(res.violations), replay=(
+                    "# property C15 -- %s\n# (harness variant 'plain': no sanitizer)\n%s#--- impl transcript:\n#%s\n" % (
+                        bad[0], body, "\n#".join(rs["impl"][:80])))))
     return res
 
 
@@ -1759,6 +1840,11 @@ def c13_scenarios(rng):
         "write": ["init", "reads %s" % hx(b"a = 1.5; s = \"x\"; g = { l = ( 1, 2 ); };"), "write",
                   "writef %s" % hx(b"out.cfg"), "clear", "dump"],
         "deep": ["init", "reads %s" % hx(b"a = " + b"(" * 120 + b")" * 120 + b";"), "dump"],
+        # aggregates that cross the 16-element chunk boundaries in both directions
+        "chunks": ["init", "add . %s 7" % hx(b"a")] + ["eset i 0 -1 %d" % i for i in range(34)] +
+                  ["rmi 0 33", "rmi 0 0", "rmi 0 16", "rmi 0 0", "dump"] +
+                  ["add . %s 2" % hx(b"m%d" % i) for i in range(17)] + ["rm . %s" % hx(b"m3"), "rm . %s" % hx(b"m16"), "dump",
+                   "add . %s 8" % hx(b"l")] + ["eset s 17 -1 %s" % hx(b"e%d" % i) for i in range(17)] + ["rmi 17 16", "rmi 17 0", "dump"],
     }
     return sc
 
@@ -1953,6 +2039,31 @@ def run_c14(ctx):
                 break
         if res.violations:
             break
+    # ---- threads under different locales of their own (one comma-decimal, some point-decimal objects, the rest
+    #      none), without a sanitizer (races inside libc, e.g. around localeconv(), are invisible to TSan; what they
+    #      cause is not): a thread's reads and writes must still give what they give alone ----
+    if not res.violations:
+        pexe = os.path.join(os.path.dirname(ctx.harness("plain")), "thr")
+        env2 = dict(os.environ)
+        env2["LOCPATH"] = os.path.join(BUILD, "locale")
+        for nt, it in ([(7, 2500), (7, 2500), (12, 1500)] if ctx.tier == "quick" else [(7, 30000), (12, 20000), (16, 20000), (7, 30000)]):
+            wd = runner.workdir()
+            try:
+                p = subprocess.run([pexe, wd, str(nt), str(it), "loc"], stdout=subprocess.PIPE, stderr=subprocess.PIPE, timeout=900, env=env2)
+                rc, out, err = p.returncode, p.stdout.decode("latin-1"), p.stderr.decode("latin-1", "replace")
+            except subprocess.TimeoutExpired:
+                rc, out, err = "HANG", "", ""
+            shutil.rmtree(wd, ignore_errors=True)
+            total += nt * it
+            if rc != 0:
+                kind = "a thread obtained results that differ from its results running alone" if rc == 1 else (
+                    "the comma-decimal test locale is not available" if rc == 3 else "status %s" % rc)
+                res.violations.append(dict(name="locales_%d_%d" % (nt, it), replay=(
+                    "# property C14 -- %d threads x %d iterations of harness/thr.c, thread 0 under a comma-decimal locale of its "
+                    "own, every third thread under a point-decimal locale object, the others under none: %s\n"
+                    "# replay: LOCPATH=/verif/build/locale <plain build>/thr <empty dir> %d %d loc\n#--- stdout:\n#%s\n#--- stderr (tail):\n#%s\n" % (
+                        nt, it, kind, nt, it, "\n#".join(out.splitlines()[-5:]), "\n#".join(err.splitlines()[-40:])))))
+                break
     res.evaluations = total
     res.distinct = total
     res.distribution = {"runs": ["%d threads x %d iterations" % r for r in runs], "thread_programs_executed": total}
@@ -2230,7 +2341,7 @@ def c20_oracle(script, rec):
     for op, out in al:
         f = op.split(" ")
         if f[0] in ("reads", "readst", "readck", "readf"):
-            cur = [f[0], out[0] if out else None, None]
+            cur = [f[0], out[0] if out else None, f[-1] if f[0] != "readf" else None]
             if any(l in ("L FDLEAK", "L STREAMBAD") for l in out):
                 bad.append("%s: %s" % (f[0], [l for l in out if l.startswith("L ")]))
         elif op == "dump" and cur:
@@ -2238,8 +2349,12 @@ def c20_oracle(script, rec):
             sig = tree_sig(root, with_pos=False) if root else None
             lines = tuple(sorted((n.path, n.line) for n in ([] if root is None else flatten(root))))
             e = (err[0], err[1], err[3]) if err else None        # type, text, line (file name differs by design)
-            results.append((cur[0], cur[1], sig, lines, e))
+            results.append((cur[0], cur[1], sig, lines, e, cur[2]))
             cur = None
+    # an earlier read of other bytes (to populate the configuration) is not part of the comparison
+    args = [r[5] for r in results if r[5] is not None]
+    main = args[-1] if args else None
+    results = [r[:5] for r in results if r[5] is None or r[5] == main]
     if results:
         ref = results[0]
         for r in results[1:]:
@@ -2296,9 +2411,15 @@ def run_c20(ctx):
                 texts.append(b"pre = 1;\n" + b"n" * n + b" = 1;\npost = 2;\n")
             else:
                 texts.append(b"pre = 1;\nw =" + b" " * n + b"3;\npost = 2;\n")
+        # texts without a single token (empty, blanks, comments only), read into a configuration that already holds
+        # settings: every entry point has to replace them
+        blanks = [b"", b" ", b"\n", b"\t\r\n \n", b"# only a comment\n", b"/* c */", b"// c", b"\n\n# c\n\n"]
+        texts += blanks
         cases = []
         for t in texts:
             body = ["init", "fs put %s %s" % (hx(b"c20inc.cfg"), hx(b"inc = 7;\n")), "fs put %s %s" % (hx(b"c20.cfg"), hx(t))]
+            if t in blanks:
+                body += ["reads %s" % hx(b"old = 1; kept = \"x\";"), "dump"]
             for entry in ("reads %s" % hx(t), "readst %s" % hx(t), "readck 1,2,4095,4096,8191,8192,8193,17 %s" % hx(t),
                           "readck 8193 %s" % hx(t), "readf %s" % hx(b"c20.cfg")):
                 body += [entry, "dump"]
@@ -2407,6 +2528,16 @@ def c11_cases(rng, nforests, max_files):
             f3 = dict(files)
             f3[names[-1]] = f3[names[-1]] + b"\n@include \"" + names[-1] + b"\"\n"      # a cycle
             cases.append("\n".join(forest_script(top, f3, "readf")) + "\n")
+    # a second read on the same object after a read that recorded file names but left no setting behind (failed
+    # before the first setting, or read a file without settings): the first read's names must be released too
+    for first in ([b"@include \"missing.cfg\"\nx = 1;\n", {}], [b"# only a comment\n", {}], [b"@include \"e.cfg\"\n", {b"e.cfg": b"\n\n"}],
+                  [b"@include \"e.cfg\"\n", {b"e.cfg": b"= oops;\n"}], [b"\n= broken\n", {}]):
+        for second in ("readf %s" % hx(b"ok.cfg"), "reads %s" % hx(b"z = 1;"), "readf %s" % hx(b"top.cfg")):
+            body = ["init", "fs put %s %s" % (hx(b"ok.cfg"), hx(b"y = 2;\n@include \"ok2.cfg\"\n")), "fs put %s %s" % (hx(b"ok2.cfg"), hx(b"w = 3;\n")),
+                    "fs put %s %s" % (hx(b"top.cfg"), hx(first[0]))]
+            body += ["fs put %s %s" % (hx(k), hx(v)) for k, v in first[1].items()]
+            body += ["readf %s" % hx(b"top.cfg"), "dump", second, "dump", "destroy"]
+            cases.append("\n".join(body) + "\n")
     return cases, stats
 
 
@@ -2449,8 +2580,15 @@ def run_c11(ctx):
     res.distribution = stats
     res.samples = [cases[min(3, len(cases) - 1)][:700]] if cases else []
     keep = lambda l: l if l.startswith(("R ", "L ", "E ")) else None
-    correspond(ctx, res, cases, line_filter=keep, oracle=c11_oracle,
-               known=lambda s, r, o: match_known("C11", s, r, o), per_proc=10)
+    # histories that end with config_destroy (the leak probe runs there) go one per process, first
+    retry = [c for c in cases if c.rstrip().endswith("destroy")]
+    rest = [c for c in cases if not c.rstrip().endswith("destroy")]
+    if retry:
+        run_singles(ctx, res, retry, line_filter=keep, oracle=c11_oracle,
+                    known=lambda s, r, o: match_known("C11", s, r, o), label="retry")
+    if not res.violations:
+        correspond(ctx, res, rest, line_filter=keep, oracle=c11_oracle,
+                   known=lambda s, r, o: match_known("C11", s, r, o), per_proc=10)
     return res
 
 
@@ -3040,6 +3178,17 @@ def c01_cases(rng, ntrees, nparsed, big=False):
         for (o, tab, prec, dfmt) in c01_vectors(rng, 4, full=(t % 10 == 0)):
             body += ["options %d" % o, "tab %d" % tab, "prec %d" % prec, "deffmt %d" % dfmt, "dump", "rtrip"]
         cases.append("\n".join(body) + "\n")
+    # precisions beyond the 17 significant digits of a double (the precision counts decimal PLACES in %f): small
+    # magnitudes whose later places matter, in fixed and scientific notation
+    import struct as _st
+    smalls = [1.2345678901234567e-10, 4.9406564584124654e-5, 1e-18, 3e-19, 7.0e-23, 0.1, 2.5, -1234.0625, 1.0 / 3.0, 6.02214076e-8]
+    body = ["init"]
+    for i, x in enumerate(smalls):
+        body += ["add . %s 4" % hx(b"f%d" % i), "set f %d x%016x" % (i, _st.unpack("<Q", _st.pack("<d", x))[0])]
+    for prec in (16, 17, 18, 20, 25, 30, 40):
+        for o in (0x16, 0x36):
+            body += ["options %d" % o, "tab 2", "prec %d" % prec, "deffmt 0", "dump", "rtrip"]
+    cases.append("\n".join(body) + "\n")
     for t in range(nparsed):
         text = gen_text.rand_config(rng, depth=rng.choice([2, 3, 4]))
         body = ["init", "reads " + hx(text)]
